@@ -56,6 +56,58 @@ def gen_case(rng, nops):
     return " ; ".join(ops)
 
 
+def split_random(rng, b, maxparts=4):
+    """split a byte string (valid UTF-8) into buffers at character boundaries"""
+    s = b.decode("utf8")
+    if len(s) <= 1:
+        return [b] if b else []
+    k = rng.randint(1, min(maxparts, len(s)))
+    cuts = sorted(rng.sample(range(1, len(s)), k - 1)) if k > 1 else []
+    parts, prev = [], 0
+    for c in cuts + [len(s)]:
+        parts.append(s[prev:c].encode("utf8")); prev = c
+    return [p for p in parts if p]
+
+
+def gen_eat_case(rng):
+    """directed: the queue holds (a case variant of) a pattern, exactly, plus an optional tail or minus its last
+    characters, split over several buffers; then eat / next / eat again"""
+    pat = rng.choice(PATTERNS[:-1] + ["éx<b", "abc", "DOCTYPE html"])
+    text = "".join(ch.upper() if rng.random() < 0.5 else ch.lower() for ch in pat)
+    k = rng.random()
+    if k < 0.4:
+        pass                                  # exact: the match ends at the end of the last buffer
+    elif k < 0.7:
+        text += rand_text(rng, 3)
+    else:
+        text = text[: rng.randint(0, max(0, len(text) - 1))]   # truncated: need more
+    ops = []
+    for part in split_random(rng, text.encode("utf8")):
+        ops.append("B %d %s" % (len(part), " ".join(map(str, part))))
+    pb = pat.encode("utf8")
+    ic = 1 if rng.random() < 0.7 else 0
+    ops.append("E %d %d %s" % (ic, len(pb), " ".join(map(str, pb))))
+    if rng.random() < 0.5:
+        more = rand_text(rng, 3).encode("utf8")
+        ops.append("B %d %s" % (len(more), " ".join(map(str, more))))
+        ops.append("E %d %d %s" % (ic, len(pb), " ".join(map(str, pb))))
+    ops += [rng.choice(["N", "P", "X %d" % mask_of("<&")]) for _ in range(rng.randint(0, 3))]
+    return " ; ".join(ops)
+
+
+def gen_set_case(rng):
+    """directed: characters around the 64-bit set boundary and multi-byte characters whose low bits collide with members"""
+    members = rng.choice(TOK_SETS)
+    pool = list(members) + ["?", "@", "\0", "\x3f", "\x40", "a", "č", "Ā", "Ħ", "ļ", "Ġ", "Ŀ", "\u010a", "\u0126", "\u013c", "\u2026", "\U0001003c"]
+    text = "".join(rng.choice(pool) for _ in range(rng.randint(1, 10)))
+    ops = []
+    for part in split_random(rng, text.encode("utf8"), 3):
+        ops.append("B %d %s" % (len(part), " ".join(map(str, part))))
+    m = mask_of(members) if rng.random() < 0.8 else (rng.getrandbits(64) | 1 | (1 << 63))
+    ops += ["X %d" % m] * rng.randint(1, 6)
+    return " ; ".join(ops)
+
+
 def lower_ascii(b):
     return bytes(x + 32 if 65 <= x <= 90 else x for x in b)
 
@@ -142,6 +194,8 @@ def run(ck):
         if os.path.exists(corpus):
             cases += [l.strip() for l in open(corpus) if l.strip()]
         cases += [gen_case(ck.rng, ck.rng.randint(1, 14)) for _ in range(n)]
+        cases += [gen_eat_case(ck.rng) for _ in range(n // 2)]
+        cases += [gen_set_case(ck.rng) for _ in range(n // 2)]
     proofs_ok = ck.coq_props(extra_targets=["Extract/ExtractBQ.vo"])
     bindir = ck.cargo_build(["bq"])
     model = ck.ocaml_build("bq_model", "bq_model.ml", "bq_driver.ml")
